@@ -57,6 +57,7 @@ type ModEntry struct {
 type LoopSpec struct {
 	Preserves []ModEntry
 	Invs      []Clause
+	Steps     []Clause // proved at the back edge only; may use at_head(...)
 	Decreases SExpr
 	DecSrc    string
 }
@@ -117,6 +118,7 @@ type Contract struct {
 	NoAlloc       bool
 	Interface     bool
 	InlineCallees []string
+	PanicsAt      []string // callees whose calls may panic (an extra, unwinding path is explored at each such call)
 	AbstractCallees []string
 	PathLimit     int
 	IfaceRecvName string     // implements: the name the interface contract uses for its receiver ...
@@ -170,7 +172,7 @@ type Lemma struct {
 	File   string
 }
 
-var clauseKW = []string{"assume-at", "assumes", "stable-types", "stable", "loop-call", "requires", "ensures-on-panic", "ensures", "modifies", "loop", "assert-at", "trusted", "inline", "abstract-all", "abstract-calls", "may-panic",
+var clauseKW = []string{"assume-at", "assumes", "stable-types", "stable", "loop-call", "requires", "ensures-on-panic", "ensures", "modifies", "loop", "assert-at", "trusted", "inline", "abstract-all", "abstract-calls", "panics-at", "may-panic",
 	"allow-send", "arith", "let", "noalloc", "call-inline", "call-abstract", "callback", "path-limit", "implements", "var", "call", "assume", "assert", "havoc"}
 var topKW = []string{"func", "spec", "ghost", "axiom", "lemma", "package", "table", "immutable", "closed"}
 
@@ -536,11 +538,22 @@ func (w *World) parseFuncContract(it rawItem, pkg *types.Package, external bool)
 			}
 			if strings.HasPrefix(body, "invariant") {
 				tags, src := parseTags(strings.TrimSpace(strings.TrimPrefix(body, "invariant")))
+				tags, _ = splitTagNames(tags)
 				x, err := parseSpec(src)
 				if err != nil {
 					return err
 				}
 				ls.Invs = append(ls.Invs, Clause{Tags: tags, Expr: x, Src: src, Ord: len(ls.Invs)})
+			} else if strings.HasPrefix(body, "step") {
+				// loop k: step e : proved at the end of every pass through the body (never assumed); at_head(x) inside e is
+				// the value x had when the pass started. For accumulators: "each pass adds exactly ... to total".
+				tags, src := parseTags(strings.TrimSpace(strings.TrimPrefix(body, "step")))
+				tags, _ = splitTagNames(tags)
+				x, err := parseSpec(src)
+				if err != nil {
+					return err
+				}
+				ls.Steps = append(ls.Steps, Clause{Tags: tags, Expr: x, Src: src, Ord: len(ls.Steps)})
 			} else if strings.HasPrefix(body, "preserves") {
 				ents, _, err := parseModifies(strings.TrimSpace(strings.TrimPrefix(body, "preserves")))
 				if err != nil {
@@ -560,6 +573,7 @@ func (w *World) parseFuncContract(it rawItem, pkg *types.Package, external bool)
 		case "assert-at", "assume-at":
 			// assert-at[tags] call <callee>[#k]: expr
 			tags, r2 := parseTags(rest)
+			tags, _ = splitTagNames(tags) // "C03:name": the name documents the clause, the key stays assert-at#<ordinal>
 			r2 = strings.TrimSpace(strings.TrimPrefix(r2, "call"))
 			i := strings.Index(r2, ":")
 			if i < 0 {
@@ -633,6 +647,11 @@ func (w *World) parseFuncContract(it rawItem, pkg *types.Package, external bool)
 			c.InlineCallees = append(c.InlineCallees, strings.Fields(rest)...)
 		case "call-abstract":
 			c.AbstractCallees = append(c.AbstractCallees, strings.Fields(rest)...)
+		case "panics-at":
+			// panics-at <callee patterns>: a call of the function under verification to one of these callees may PANIC
+			// instead of returning; the panic unwinds through the deferred calls (recover() is modelled) and, if nobody
+			// recovers, the function exits by panic: the ensures-on-panic clauses are proved there
+			c.PanicsAt = append(c.PanicsAt, strings.Fields(rest)...)
 		case "path-limit":
 			c.PathLimit, _ = strconv.Atoi(rest)
 		case "implements":
